@@ -17,7 +17,7 @@ use std::sync::Arc;
 pub struct Op {
     pub path: String,
     pub text: String,
-    /// true = the scan's no-cleanup path (`analyze_file_fresh`), false = `analyze_file`
+    /// true = the scan's no-cleanup path (`analyze_file_from_disk(.., false)`), false = `analyze_file`
     pub fresh: bool,
 }
 
@@ -34,7 +34,7 @@ const PATHS: [&str; 6] = ["/w/conftest.py", "/w/a/conftest.py", "/w/a/test_one.p
 
 fn apply(db: &FixtureDatabase, op: &Op) {
     if op.fresh {
-        db.analyze_file_fresh(PathBuf::from(&op.path), &op.text);
+        db.analyze_file_from_disk(PathBuf::from(&op.path), &op.text, false);
     } else {
         db.analyze_file(PathBuf::from(&op.path), &op.text);
     }
@@ -70,7 +70,7 @@ impl Scenario for Race {
         "race"
     }
     fn rule(&self) -> &'static str {
-        "2-3 simulated threads each run one analyze_file/analyze_file_fresh on distinct files over a 3-name pool; \
+        "2-3 simulated threads each run one analyze_file / analyze_file_from_disk on distinct files over a 3-name pool; \
          non-trivial = the concurrent texts (or the versions they replace) share at least one fixture name and the schedule \
          switched threads at least once; distinct = (input hash, decision-list hash)"
     }
